@@ -703,6 +703,12 @@ class KeychainSqlite3(Keychain):
         if name not in self:
             raise KeyError(f'Identity {Name.to_str(id_name)} does not exist')
         identity = self[name]
+        if kwargs.get('key_id', None):
+            # Generating the key stores its private part under the key name:
+            # refuse before an existing key is overwritten
+            key_name = self.tpm.construct_key_name(name, b'', key_id=kwargs['key_id'])
+            if key_name in identity:
+                raise KeyError(f'Key {Name.to_str(key_name)} already exists')
         key_name, pub_key = self.tpm.generate_key(name, key_type, **kwargs)
         signer = self.tpm.get_signer(key_name)
         cert_name, cert_data = self_sign(key_name, pub_key, signer)
